@@ -1,6 +1,6 @@
 (* wire encoding of the H.265 cases *)
 From Coq Require Import ZArith List Bool.
-From V Require Import Val Bytes C15BitFmt C15Ebsp C15H264 C15Hevc RunC15.
+From V Require Import Val Bytes C15BitFmt C15Ebsp C15H264 C15Hevc C15Pure RunC15.
 Import ListNotations.
 Open Scope Z_scope.
 
@@ -9,11 +9,16 @@ Definition x_C15_h265_emit (c : val) : val :=
   | Some (b, a) => if h265_ranges a then VL [VB (nal_of_bits b)] else VL []
   | None => VL []
   end.
-Definition x_C15_h265_run (c : val) : val := enc_vobs (go_h265_obs (as_bytes (nthv 1 c))).
+Definition x_C15_h265_run (c : val) : val := enc_twice enc_vobs (twice go_h265_obs (as_bytes (nthv 1 c))).
 Definition x_C15_h265_ok (v : val) : val :=
   let c := nthv 0 v in let o := nthv 1 v in
+  let nal := as_bytes (nthv 1 c) in
+  vbool (both_wf obs_wellformed o &&
+         pure_ok vobs_eqb (ok_h265 (dec_env (nthv 0 c)) nal) nal (dec_twice dec_vobs o)).
+Definition x_C15_h265_bytes (c : val) : val := enc_twice enc_vobs (twice go_h265_obs (as_bytes c)).
+Definition x_C15_h265_glue_ok (v : val) : val :=
+  let c := nthv 0 v in let o := nthv 1 v in
   vbool (obs_wellformed o && ok_h265 (dec_env (nthv 0 c)) (as_bytes (nthv 1 c)) (dec_vobs o)).
-Definition x_C15_h265_bytes (c : val) : val := enc_vobs (go_h265_obs (as_bytes c)).
 Definition x_C15_h265_d29 (c : val) : val := enc_vobs (go_h265_decode_with go_h265_sps_d29 (as_bytes c)).
 
 Definition enc_pobs (o : pobs) : val :=
@@ -30,12 +35,17 @@ Definition x_C15_vps_emit (c : val) : val :=
   | Some (b, a) => VL [VB (nal_of_bits b)]
   | None => VL []
   end.
-Definition x_C15_vps_run (c : val) : val := enc_pobs (go_vps_obs (as_bytes (nthv 1 c))).
+Definition x_C15_vps_run (c : val) : val := enc_twice enc_pobs (twice go_vps_obs (as_bytes (nthv 1 c))).
 Definition x_C15_vps_ok (v : val) : val :=
   let c := nthv 0 v in let o := nthv 1 v in
-  vbool (pobs_wellformed o && ok_vps (dec_env (nthv 0 c)) (as_bytes (nthv 1 c)) (dec_pobs o)).
-Definition x_C15_vps_bytes (c : val) : val := enc_pobs (go_vps_obs (as_bytes c)).
-Definition x_C15_vps_total_ok (v : val) : val := vbool (pobs_wellformed (nthv 1 v)).
+  let nal := as_bytes (nthv 1 c) in
+  vbool (both_wf pobs_wellformed o &&
+         pure_ok pobs_eqb (ok_vps (dec_env (nthv 0 c)) nal) nal (dec_twice dec_pobs o)).
+Definition x_C15_vps_bytes (c : val) : val := enc_twice enc_pobs (twice go_vps_obs (as_bytes c)).
+Definition x_C15_vps_total_ok (v : val) : val :=
+  let o := nthv 1 v in
+  vbool (both_wf pobs_wellformed o &&
+         pure_ok pobs_eqb (fun _ => true) (as_bytes (nthv 0 v)) (dec_twice dec_pobs o)).
 
 (* D30 witnesses: the last short-term RPS uses inter prediction *)
 Definition x_C15_h265i_emit (c : val) : val :=
@@ -45,7 +55,9 @@ Definition x_C15_h265i_emit (c : val) : val :=
   end.
 Definition x_C15_h265i_ok (v : val) : val :=
   let c := nthv 0 v in let o := nthv 1 v in
-  vbool (obs_wellformed o && ok_h265_i (dec_env (nthv 0 c)) (as_bytes (nthv 1 c)) (dec_vobs o)).
+  let nal := as_bytes (nthv 1 c) in
+  vbool (both_wf obs_wellformed o &&
+         pure_ok vobs_eqb (ok_h265_i (dec_env (nthv 0 c)) nal) nal (dec_twice dec_vobs o)).
 
 (* SDP glue: Stream.Video stays empty when the SPS does not decode or decodes to width 0 *)
 Definition glue_view (o : vobs) : vobs :=
